@@ -145,7 +145,7 @@ theorem exBasis_entries : blockOf 3 3 exBasis = !![1, -1, 0; 1, -1/2, 1/2; 1, 1,
   have n2 : nollN 2 = 1 ∧ nollM 2 = 1 := by decide
   ext r c
   fin_cases r <;> fin_cases c <;>
-    simp [blockOf, exBasis, zBasisX, zernAt, zernCore, exModes, exRho, n1, n4, n2, radialEval, radialCoeff, fact, powK,
+    simp [blockOf, exBasis, zBasisX, zernAt, Gen.zernCore, exModes, exRho, n1, n4, n2, radialEval, radialCoeff, Gen.radialNum, Gen.radialDen, Gen.fact, powK,
       List.range, List.range.loop] <;> norm_num
 
 
